@@ -13,6 +13,7 @@ import re
 from mirlib import *
 
 UNK, EQ, GE, GT = 0, 1, 2, 3
+LEAVES = ('mutated', 'mref', 'sref', 'static', 'fn', 'const', 'uninit', 'cst', 'opaque')
 
 
 def compose(r1, r2):
@@ -530,6 +531,11 @@ class Progress:
             return join(r1, r2)
         if nm == 'map' and len(args) == 2 and steps[:2] == [('dc', 1), ('f', 0)] and args[1][0] == 'closure':
             return self.rel_closure(args[1], steps[2:], base, body, depth + 1, strip_ref(args[0]))
+        if nm in ('checked_add', 'saturating_add', 'wrapping_add') and len(args) == 2:
+            st2 = steps[2:] if steps[:2] == [('dc', 1), ('f', 0)] else (steps if nm != 'checked_add' else None)
+            if st2 is not None and not st2:
+                return self.rel(('bin', 'Add', args[0], args[1]), base, body, depth + 1)
+            return UNK
         if nm in ('max',) and len(args) == 2 and not steps:
             return max(self.rel(args[0], base, body, depth + 1), self.rel(args[1], base, body, depth + 1))
         if nm == 'from' or nm == 'into' or nm == 'clone':
@@ -679,6 +685,10 @@ class Progress:
             return t
         if t[0] == 'field' and t[1] in (('param', 1), ('deref', ('param', 1))) and isinstance(t[2], int) and t[2] < len(caps):
             return caps[t[2]]
+        if not isinstance(t[0], str):
+            return tuple(self.subst_upvars(x, caps) if isinstance(x, tuple) else x for x in t)
+        if t[0] in LEAVES:
+            return t
         out = tuple(self.subst_upvars(x, caps) if isinstance(x, tuple) else x for x in t)
         if out[0] in ('deref', 'ref', 'field', 'downcast', 'discr', 'bin'):
             return simp(out)
@@ -689,6 +699,10 @@ class Progress:
             return t
         if t in amap:
             return amap[t]
+        if not isinstance(t[0], str):
+            return tuple(self.subst(x, amap) if isinstance(x, tuple) else x for x in t)  # a tuple of terms
+        if t[0] in LEAVES:
+            return t
         out = tuple(self.subst(x, amap) if isinstance(x, tuple) else x for x in t)
         if out[0] in ('deref', 'ref', 'field', 'downcast', 'discr', 'bin'):
             return simp(out)
